@@ -22,7 +22,6 @@ META = {
                   "posed to one solver in different orders, are compared with the oracle; the engine-level theorems live with "
                   "C10/C02 (Engine/RecEngine.v).  Closures, coroutines, opaque types, fn-def types and lifetimes are not modelled.",
     "design_ref": "DESIGN.md §4 C05",
-    "bins": ["solve", "rules"],
     "assumptions": [
         "lifetimes are erased in the model (generated programs cannot produce region constraints: impl headers use fresh lifetime parameters)",
         "the `rules` harness renders chalk_ir clauses faithfully; clauses with a FromEnv condition are ignored (empty environment)",
